@@ -282,7 +282,8 @@ def rule_D2(ctx, rule: str = "D2", only: Optional[Set[str]] = None) -> None:
     mod = ctx.repo.mod(M_INIT)
     emitters = {
         "dump": (mod.func("Message.dump"), {"_serialize_single": (mod, mod.func("_serialize_single"))}),
-        "__len__": (mod.func("Message.__len__"), {"_len_single": (mod, mod.func("_len_single"))}),
+        # (the sizer may measure what the writer's helper produces: len(_serialize_single(..)) counts the key as well)
+        "__len__": (mod.func("Message.__len__"), {"_len_single": (mod, mod.func("_len_single")), "_serialize_single": (mod, mod.func("_serialize_single"))}),
     }
     ctx.analysed("Message.dump", "Message.__len__", "_serialize_single", "_len_single")
     dump = emitters["dump"][0]
